@@ -98,7 +98,6 @@ func main() {
 			SkipStmts:  []string{"computeOpts := &core.Options{}", "for _, o := range opts {"},
 			Atoms: map[string]string{
 				"computeOpts.IgnoreMissingChildren": "a_ign",
-				"make([]osm.Action, 0, osmCount(change.Create)+osmCount(change.Modify)+osmCount(change.Delete))": "(@nil action)",
 			},
 			SumCalls: map[string]string{
 				"addUpdate(ctx, actions, change.Modify, osm.ActionModify, ds, ignoreMissing)": "(gen_add_update a_nft a_ds v_actions (gc_modify a_change) TModify v_ignoreMissing)",
